@@ -29,6 +29,21 @@ func docSets(thorough bool, f func(name string, blocks []doc.Block)) {
 	}
 }
 
+// refcatHook judges, over the documents of E-REFCAT (fixtures and pool selections), the aspects
+// the reference compiler owns for check id (set in the verif build, refcat.go).
+var refcatHook func(c *fw.Ctx, id string)
+
+// docTap, when set, receives every document a generator has just run - instead of the generator's
+// own judgement. It lets a check judge, with the sentence of ITS property, the documents another
+// check's generator builds (refcatCross).
+var docTap func(label, text string, o drv.Outcome)
+
+// refcatAlso judges one more document (already run) with the reference compiler's view of check id.
+var refcatAlso func(c *fw.Ctx, id, label, text string, o drv.Outcome)
+
+// refcatCross runs the generators gens under a tap that judges the aspects of check id.
+var refcatCross func(c *fw.Ctx, id string, gens ...func(c *fw.Ctx))
+
 func run1(text string) drv.Outcome { return drv.RunMem("root.jst", text, drv.Options{FixedSeed: true}) }
 
 // sameResult compares two outcomes of what should be the same document: same verdict and, when
